@@ -146,6 +146,20 @@ func (e *Enc) external(cur *cursor, v ssa.Value, callee *ssa.Function, args []Va
 		st.heap["M$string"] = na
 		e.assumedCallees["ext:"+full] = true
 		e.setResults(cur, v, sig, nil)
+	case "encoding/json.MarshalIndent", "encoding/json.Marshal":
+		// assumed contract: either some bytes, or an error of the library's own (not one of the
+		// interpreter's error types or sentinels); like every error creation it sets the fault latch
+		a := e.allocAddr(cur)
+		n := e.fresh("jsonlen", "Int")
+		e.assume(cur.guard, fmt.Sprintf("(<= 0 %s)", n))
+		errNew := e.newError(cur)
+		isErr := e.fresh("marshalfails", "Bool")
+		errT := fmt.Sprintf("(ite %s %s ANil)", isErr, errNew)
+		if _, ok := e.m.spec.Ghosts["$faulted"]; ok {
+			cur.st.ghost["$faulted"] = e.define("$faulted", "Bool", fmt.Sprintf("(or %s %s)", e.ghostGet(cur.st, "$faulted"), isErr))
+		}
+		set(fmt.Sprintf("(ite %s (mk_slice Nil 0 0 0) (mk_slice %s 0 %s %s))", isErr, a, n, n), errT)
+		e.freshAddrs[a] = true
 	case "strings.Split":
 		// assumed contract: a fresh slice of s_split_n(s, sep) >= 0 strings, the k-th being s_split_at(s, sep, k).
 		// (That the pieces contain no separator and join back to s is the library's documentation; the
